@@ -109,6 +109,8 @@ pub struct World {
     pub connects: usize,
     pub bytes_moved: usize,
     pub yielded_untagged: Vec<String>,
+    /// yielded requests that carry no valid tag (possible only from clients that sent garbage)
+    pub untagged: Vec<ServerRequest>,
     pub yield_faults: Vec<String>,
     pub respond_results: Vec<(usize, usize, bool)>,
     pub sndbuf_shrunk: bool,
@@ -249,6 +251,7 @@ impl World {
             connects: 0,
             bytes_moved: 0,
             yielded_untagged: vec![],
+            untagged: vec![],
             yield_faults: vec![],
             respond_results: vec![],
             sndbuf_shrunk: false,
@@ -518,6 +521,7 @@ impl World {
                         }
                         None => {
                             self.yielded_untagged.push(path);
+                            self.untagged.push(sreq);
                         }
                     }
                 }
@@ -614,6 +618,20 @@ impl World {
         }
         self.note(format!("enqueue_responses({}) -> {}", n, if r.is_ok() { "Ok" } else { "Err" }));
         r.is_ok()
+    }
+
+    /// answer requests that carry no tag (so that their connections can be released)
+    pub fn answer_untagged(&mut self) {
+        while let Some(sreq) = self.untagged.pop() {
+            let mut r = Response::new(micro_http::Version::Http11, micro_http::StatusCode::NotFound);
+            r.set_body(Body::new("untagged-request".to_string()));
+            let mut slot = Some(r);
+            let sresp = sreq.process(|_| slot.take().unwrap());
+            if let Err(e) = self.server.as_mut().unwrap().respond(sresp) {
+                self.api_errors.push(format!("respond(untagged) -> {}", serr(&e)));
+            }
+            self.note("respond(untagged request)".into());
+        }
     }
 
     pub fn flush(&mut self) {
@@ -742,6 +760,7 @@ impl World {
 impl Drop for World {
     fn drop(&mut self) {
         self.outstanding.clear();
+        self.untagged.clear();
         self.server.take();
         for c in &self.clients {
             unsafe { libc::close(c.fd) };
@@ -888,6 +907,7 @@ pub fn audit_client(w: &World, c: usize) -> Result<Audit, (String, String)> {
                     }
                 }
                 500 => a.n500 += 1,
+                404 if cl.dirty && r.body == b"untagged-request" => {}
                 other => {
                     return Err(("unknown-response".into(), format!("client {} received an untagged {} response: \"{}\"", c, other, esc(&raw[..raw.len().min(200)]))));
                 }
